@@ -438,7 +438,7 @@ def global_state_digest():
     return hash(tuple((k, digest(v, 2)) for k, v in sorted(ProcImages._snapshot().items(), key=lambda kv: repr(kv[0]))))
 
 
-def explore_states(make, judge_terminal, max_states=200000):
+def explore_states(make, judge_terminal, max_states=200000, should_stop=None):
     """Explicit-state BFS with stateless replay and state caching.
     make() -> (bodies, locks, context): builds a fresh initial configuration (fresh file system content, fresh locks);
     called once per replay. judge_terminal(execution, context, schedule) is called on every distinct terminal state
@@ -489,6 +489,10 @@ def explore_states(make, judge_terminal, max_states=200000):
                 frontier.append((sched + [c], ex2.final_enabled))
             if stats["states"] >= max_states:
                 stats["capped"] = True
+                return stats
+            if should_stop is not None and should_stop():
+                stats["capped"] = True  # stopped early: violations were already found, exhaustiveness is moot
+                stats["stopped_on_violation"] = True
                 return stats
     return stats
 
